@@ -170,7 +170,7 @@ def handle (args : List String) (impl : String) : R Ans :=
     -- twice) and nothing else; JSON well-formedness is checked by the harness with serde_json (flag `jsonok`)
     let verdict ← do
       match (impl.splitOn "|") with
-      | gfaF :: _ :: _ :: _ :: _ :: flags =>
+      | gfaF :: _ :: tagsF :: _ :: _ :: flags =>
         let lines := ((gfaF.drop 4).toString.splitOn "\\n").filter (· ≠ "")
         let sLines := lines.filter (·.startsWith "S\\t")
         let lLines := lines.filter (·.startsWith "L\\t")
@@ -200,6 +200,9 @@ def handle (args : List String) (impl : String) : R Ans :=
         let fileOk := flags.any (· == "gfafile=1")
         -- and into a writer that accepts only a few bytes per `write` call (pipes, sockets, encoders do that)
         let shortOk := flags.any (· == "gfashort=1")
+        -- `to_gfa_with_tags` (file): the same records as `write_gfa`, every S line with one further field per tag
+        let untag := fun (l : String) => if l.startsWith "S\\t" then "\\t".intercalate ((l.splitOn "\\t").take 3) else l
+        let tagsOk := (((tagsF.drop 8).toString.splitOn "\\n").map untag) == ((gfaF.drop 4).toString.splitOn "\\n")
         pure (if ¬ segOk then "FAIL:gfa-segments"
               else if ¬ ovOk then "FAIL:gfa-overlap-field"
               else if ¬ sound then "FAIL:gfa-lists-a-link-that-is-not-an-adjacency"
@@ -208,6 +211,7 @@ def handle (args : List String) (impl : String) : R Ans :=
               else if ¬ jsonOk then "FAIL:json-not-well-formed-or-incomplete"
               else if ¬ fileOk then "FAIL:to_gfa-file-differs-from-write_gfa"
               else if ¬ shortOk then "FAIL:write_gfa-into-a-short-writing-sink-differs"
+              else if ¬ tagsOk then "FAIL:to_gfa_with_tags-file-is-not-write_gfa-with-a-tag-field-per-segment"
               else "ok")
       | _ => pure "FAIL:malformed-answer"
     -- the model compares the two texts only (flags are the harness's own checks)
